@@ -33,8 +33,16 @@ CaseResult judge(const fe::Obs &o, const fe::RunConfig &cfg, const std::string &
     if (reaped && (hh.compare(0, 9, "terminate") == 0 || hh.compare(0, 4, "kill") == 0 || hh.compare(0, 4, "wait") == 0 || hh.compare(0, 4, "stop") == 0)) after_reap_call = true;
     if (is_status) reaped = true;
   }
+  if (o.failed_handle_probed) {
+    res.cls("calls-on-failed-handle");
+    static const char *nm[] = { "terminate", "kill", "wait(0)", "pid" };
+    for (int i = 0; i < 4; i++)
+      if (o.failed_handle_results[i] != REPROC_EINVAL)
+        res.fail("failed-handle-accepted", std::string("after a failed start (") + std::to_string(o.r) + "), " + nm[i] + " on the handle returned " + std::to_string(o.failed_handle_results[i]) + " instead of the invalid-argument error: the handle refers to no process");
+    if (o.failed_handle_signals || o.failed_handle_reaps) res.fail("signal-without-child", "after a failed start the library tried to signal (" + std::to_string(o.failed_handle_signals) + ") or reap (" + std::to_string(o.failed_handle_reaps) + ") although the handle refers to no process");
+  }
   res.hash = h;
-  res.nontrivial = after_reap_call || (any_fault && o.r > 0);
+  res.nontrivial = after_reap_call || (any_fault && o.r > 0) || o.failed_handle_probed;
   if (after_reap_call) res.cls("call-after-reap");
   if (any_fault && o.r > 0) res.cls("start-succeeded-under-fault");
   if (!cfg.ops.empty()) res.cls("generated-history");
